@@ -52,7 +52,9 @@ def vshape(v) -> str:
 def shapes(depth: int) -> list:
     """Exhaustive small scope: every container kind over every representative child."""
     leaves = [int, str, T.Any, T.Optional[int], T.Literal[1, 'a'], gen.U0, type[int], A.Iterator[int],
-              T.Annotated[int, gen.IS_VALIDATORS[2]], T.Annotated[T.Any, gen.IS_VALIDATORS[3]], gen.TV_BOUND, int | str]
+              T.Annotated[int, gen.IS_VALIDATORS[2]], T.Annotated[T.Any, gen.IS_VALIDATORS[3]], gen.TV_BOUND, int | str,
+              # wide but NOT ignorable leaves: abstract classes nearly everything satisfies, user protocol / generics
+              A.Hashable, A.Sized, gen.Proto, gen.Box[int], type(None)]
     hashable = [int, str, T.Optional[int], T.Literal[1, 'a'], int | str, tuple[int, str], T.Annotated[int, gen.IS_VALIDATORS[2]]]
 
     def level(children, hchildren):
@@ -62,7 +64,9 @@ def shapes(depth: int) -> list:
                     A.Collection[c], A.Iterable[c], A.Container[c], A.Reversible[c], tuple[c], tuple[int, c], tuple[c, str, c],
                     T.Optional[c], T.Union[c, str], T.Union[c, list[int]], T.Union[dict[str, int], c],
                     T.Annotated[c, gen.IS_VALIDATORS[0]], T.Annotated[c, gen.IS_VALIDATORS[3], gen.IS_VALIDATORS[0]],
-                    dict[str, c], A.Mapping[int, c], collections.defaultdict[str, c], collections.OrderedDict[str, c]]
+                    dict[str, c], A.Mapping[int, c], collections.defaultdict[str, c], collections.OrderedDict[str, c],
+                    # ignorable KEY hints: only the value side of the first pair is examined
+                    dict[T.Any, c], A.Mapping[object, c], tuple[dict[T.Any, c], str]]
         for c in hchildren:
             out += [set[c], frozenset[c], A.Set[c], A.MutableSet[c], A.KeysView[c], dict[c, int], dict[c, T.Any],
                     A.Mapping[c, str], A.MutableMapping[c, list[int]], collections.Counter[c], A.ItemsView[c, int]]
@@ -421,7 +425,7 @@ def run(ck, n_hints: int, seed: int, focus: str, depth: int = 3, exhaustive_dept
     if focus == 'C09':
         cost_oracle(ex, usable, og, reg, cs, fail)
     if focus == 'C10':
-        consume_oracle(ex, usable, og, cs, fail)
+        consume_oracle(ex, usable, og, cs, fail, reg)
     return ex
 
 
@@ -466,6 +470,8 @@ def cost_oracle(ex, usable, og, reg, cs, fail):
             todo.append((False, [0], hm, om))
             meta.append((h, hm, x, xi))
     res = corr.model_run(todo, reg)
+    om_of = {id(m[3]): t[3] for m, t in zip(meta, todo)}
+    cause_todo = []
     for (h, hm, x, xi), r in zip(meta, res):
         if r is None or not isinstance(r[1][0][1], list):
             continue
@@ -485,6 +491,16 @@ def cost_oracle(ex, usable, og, reg, cs, fail):
                 fail(f'C09:reads-exceed-model:{shape(hm)}', f'is_bearable({x!r:.80}, {h!r:.160}) read {got} items, the generated-code model reads {model_cost}', rp)
             else:   # containers that cannot be instrumented (views, str, user classes) are read unobserved
                 sweep['fewer_reads_than_model_uninstrumented'] += 1
+        # the explanation path: items read by die_if_unbearable beyond the deciding path vs the instrumented finder model
+        if verdict is False and r[0] is False and not r[1][0][0]:
+            real.DRAW[0] = 0
+            Spy.counts.clear()
+            try:
+                die_if_unbearable(xi, h, conf=conf)
+            except Exception:
+                pass
+            expl = item_reads() - got
+            cause_todo.append((h, hm, x, om_of[id(xi)], expl, rp))
         # size sweep (accepting and rejecting path incl. the violation message)
         for scaler, cname in ((scale, 'nonrandom'), (scale_deep, 'default'), (scale_deep, 'nonrandom')):
             base = []
@@ -515,19 +531,57 @@ def cost_oracle(ex, usable, og, reg, cs, fail):
                 if base[2][1] > base[1][1] or base[2][2] > base[1][2]:
                     fail(f'C09:grows-with-size:{shape(hm)}', f'items read grow with container size for {h!r:.160} ({cname} conf, {scaler.__name__}): '
                          f'(repeat factor, reads deciding, reads incl. violation message) = {base}', {**rp, 'sweep': base, 'conf': cname})
+    # model of the finder (Lemmas/BearErrCost.lean: causeRC) for the rejected objects, one batch
+    cstat = collections.Counter()
+    more_samples = []
+    if cause_todo:
+        outs = corr.model_cause([(False, [0], hm, om) for (_h, hm, _x, om, _e, _rp) in cause_todo], reg)
+        for (h, hm, x, om, expl, rp), o in zip(cause_todo, outs):
+            if o is None:
+                continue
+            found, reads, bound = o[0]
+            cstat['compared'] += 1
+            cstat['equal' if expl == reads else 'real_fewer' if expl < reads else 'real_more'] += 1
+            if expl > reads and len(more_samples) < 5:
+                more_samples.append({'hint': repr(h)[:200], 'object': repr(x)[:200], 'real': expl, 'model': reads})
+            if expl > bound:
+                fail(f'C09:explainer-exceeds-bound:{shape(hm)}',
+                     f'die_if_unbearable({x!r:.80}, {h!r:.160}) read {expl} items to explain the rejection; the bound of the hint is {bound} '
+                     f'(model finder: {reads})', {**rp, 'explainer_reads': expl, 'model_reads': reads, 'bound': bound})
+    ex.extra['explainer_cost'] = dict(cstat)
+    ex.extra['explainer_reads_more_than_model_samples'] = more_samples
     ex.extra['cost_cases'] = n
     ex.extra['size_sweeps'] = dict(sweep)
     ex.evaluations += n
 
 
-def consume_oracle(ex, usable, og, cs, fail):
+def consume_oracle(ex, usable, og, cs, fail, reg=None):
     """One-shot iterables, generators, defaultdicts and plain containers are left as found."""
     from beartype.door import die_if_unbearable, is_bearable
     n = 0
     kinds = collections.Counter()
+    pending = []
     for h, hm in usable:
-        for maker in ('oneshot', 'sized-oneshot', 'container-oneshot', 'generator', 'iterator', 'defaultdict', 'plain'):
+        for maker in ('oneshot', 'sized-oneshot', 'container-oneshot', 'collection-oneshot', 'generator', 'iterator', 'defaultdict', 'plain'):
             base = [1, 'a', 2]
+            if maker == 'collection-oneshot':
+                # a cursor-style object: a Collection (len, contains, iter) that is its own one-shot iterator. Hints
+                # that sample re-iterable collections may read its first item; every other hint must leave it alone:
+                # judged against the number of items the MODEL of the generated check reads from it
+                if reg is None:
+                    continue
+                x = gen.CollectionOneShot(base)
+                pending.append((h, hm, x))
+                for cn in ('default', 'nonrandom'):
+                    for f in (is_bearable, die_if_unbearable):
+                        real.DRAW[0] = 1
+                        try:
+                            f(x, h, conf=cs[cn])
+                        except Exception:
+                            pass
+                n += 1
+                kinds[maker] += 1
+                continue
             if maker == 'oneshot':
                 x = gen.OneShot(base)
             elif maker == 'sized-oneshot':
@@ -576,6 +630,21 @@ def consume_oracle(ex, usable, og, cs, fail):
                     same = True
                 if not same:
                     fail(f'C10:mutated:{maker}:{shape(hm)}', f'checking {rb:.80} against {h!r:.160} changed it to {x!r:.80}', rp)
+    if pending:
+        cid = reg.id(gen.CollectionOneShot)
+        items = [obj_model(b, reg) for b in [1, 'a', 2]]
+        om = ['obj', cid, ['o', '0'], items, [], []]
+        cases = [(rnd, [1], hm, om) for (_h, hm, _x) in pending for rnd in (True, False)]
+        res = corr.model_run(cases, reg)
+        for k, (h, hm, x) in enumerate(pending):
+            rr = res[2 * k:2 * k + 2]
+            if any(r is None or not isinstance(r[1][0][1], list) for r in rr):
+                continue
+            model_reads = sum(int(r[1][0][1][1]) for r in rr)
+            if model_reads == 0 and x.consumed:
+                fail(f'C10:consumed:collection-oneshot:{shape(hm)}',
+                     f'checking a cursor-style collection (its own one-shot iterator) against {h!r:.160} advanced it {x.consumed} time(s) '
+                     f'although the generated check reads no item of it', {'hint': repr(h), 'object_kind': 'collection-oneshot'})
     ex.extra['consume_cases'] = n
     ex.extra['consume_kinds'] = dict(kinds)
     ex.evaluations += n
@@ -593,6 +662,22 @@ class CustomWarning(UserWarning):
     pass
 
 
+class CustomParamViolation(Exception):
+    pass
+
+
+class CustomReturnViolation(Exception):
+    pass
+
+
+class CustomParamWarning(CustomWarning):
+    pass
+
+
+class CustomReturnWarning(CustomWarning):
+    pass
+
+
 def signal_oracle(ex, rejecting, fail):
     """Every rejection surfaces as exactly the configured violation (raised, or warned with
     the call proceeding), names the hint, its culprits begin with the rejected object, and
@@ -606,28 +691,35 @@ def signal_oracle(ex, rejecting, fail):
     from beartype.roar import (BeartypeCallHintParamViolation, BeartypeCallHintReturnViolation, BeartypeDoorHintViolation)
     ansi = re.compile(r'\x1b\[[0-9;]*m')
     variants = []
-    for vt, spec, strat, verb, color in itertools.product(
+    # per-entry-point classes: none, an exception / a warning for parameters only, for returns only, mixed both ways
+    per_entry = ((None, None), (CustomParamViolation, None), (CustomParamWarning, None), (None, CustomReturnViolation),
+                 (None, CustomReturnWarning), (CustomParamWarning, CustomReturnViolation), (CustomParamViolation, CustomReturnWarning))
+    for vt, spec, strat, verb, color, pe in itertools.product(
             (None, CustomViolation, CustomWarning), (False, True), (BeartypeStrategy.O1, BeartypeStrategy.On),
-            tuple(BeartypeViolationVerbosity), (None, True, False)):
-        variants.append((vt, spec, strat, verb, color))
+            tuple(BeartypeViolationVerbosity), (None, True, False), per_entry):
+        variants.append((vt, spec, strat, verb, color, pe))
     n = 0
     kinds = collections.Counter()
     rng = random.Random(len(rejecting))
     for (h, x, d, hm) in rejecting:
-        for (vt, spec, strat, verb, color) in rng.sample(variants, 4):
+        for (vt, spec, strat, verb, color, (pt, rt)) in rng.sample(variants, 5):
             kw = dict(strategy=strat, violation_verbosity=verb, is_color=color)
             if vt is not None:
                 kw['violation_type'] = vt
             if spec:
                 kw['violation_door_type'] = CustomDoorViolation
+            if pt is not None:
+                kw['violation_param_type'] = pt
+            if rt is not None:
+                kw['violation_return_type'] = rt
             try:
                 conf = BeartypeConf(**kw)
             except Exception as e:
                 fail(f'C03:conf:{type(e).__name__}', f'BeartypeConf({kw}) raised {type(e).__name__}', {'kwargs': repr(kw)})
                 continue
             exp_door = CustomDoorViolation if spec else (vt or BeartypeDoorHintViolation)
-            exp_param = vt or BeartypeCallHintParamViolation
-            exp_ret = vt or BeartypeCallHintReturnViolation
+            exp_param = pt or vt or BeartypeCallHintParamViolation
+            exp_ret = rt or vt or BeartypeCallHintReturnViolation
             fp, fr = real.decorated(h, conf)
             ran = []
             runs = [('door', exp_door, lambda: die_if_unbearable(x, h, conf=conf))]
